@@ -4,4 +4,9 @@ from checks.kani_specs import C11_SPECS
 
 
 def run(chk):
+    # scalars: Kani harnesses, one per kind pair
     kani_runner.obligations(chk, C11_SPECS, chk.tier)
+    # compound values (arrays) and membership, which must agree with ==: the MIR executor (shared with C06, where the operators are used)
+    from checks import C06
+    P = chk.program(('core', 'lib'))
+    C06.ob_binary_values(chk, P)
